@@ -10,7 +10,9 @@ unspecified), ids outside [A-Za-z0-9_-].
 """
 from __future__ import annotations
 
+import copy
 import math
+from decimal import Decimal
 from dataclasses import dataclass, field
 from typing import List, Optional
 
@@ -46,6 +48,9 @@ class Cfg:
     gradient_bias: int = 2  # a leaf gets a gradient fill with probability 1/(bias+1)
     max_gradients: int = 3
     micro: bool = True  # allow one micro-scale group (content in huge units under scale(2e-5))
+    gradient_stroke: bool = False  # stroke paint may be a gradient reference (structural checks only: bbox units then refer to another box)
+    tiny_opacity: bool = False  # opacities whose products round to 0 (0.02 x 0.03); for checks that do not compare renderings
+    twins: bool = True  # allow a "twin": a copy of a leaf with identical geometry and one paint property altered
 
 
 def fmt(x: float) -> str:
@@ -77,6 +82,7 @@ def serialize(n, root=False, extra_ns: str = "", prolog: str = "") -> str:
         attrs["style"] = ";".join(f"{k}:{v}" for k, v in n["s"].items())
     parts = [prolog, f"<{tag}"]
     if root:
+        parts.insert(1, "".join(serialize(x) for x in n.get("_before", ())))  # comments / PIs between prolog and root
         parts.append(" " + NS + ((" " + extra_ns) if extra_ns else ""))
     for k, v in attrs.items():
         parts.append(f' {k}="{_esc(v)}"')
@@ -87,6 +93,8 @@ def serialize(n, root=False, extra_ns: str = "", prolog: str = "") -> str:
         parts.append(f"</{tag}>")
     else:
         parts.append("/>")
+    if root:
+        parts.append("".join(serialize(x) for x in n.get("_after", ())))  # comments / PIs after the root element
     return "".join(parts)
 
 
@@ -238,6 +246,13 @@ def path_data(draw, box, closed_bias=True, wild=False):
                 cur = [round(cur[0] + round(e[0] - cur[0], 2), 2), round(cur[1] + round(e[1] - cur[1], 2), 2)]
             else:
                 cur = [e[0], e[1]]
+        if draw(st.integers(0, 9)) == 0:
+            # return to a hair's breadth of the subpath start (about one unit of the default rounding grid):
+            # "almost closed" decisions must come out the same before and after rounding
+            d = draw(st.sampled_from([0.0004, 0.0006, 0.0011, 0.0012, 0.0014, -0.0013, 0.0049, 0.0051]))
+            q = (start[0] + d, start[1]) if draw(st.booleans()) else (start[0], start[1] + d)
+            out.append(f"L{q[0]:.4f},{q[1]:.4f}")
+            cur = [q[0], q[1]]
         if draw(st.sampled_from([True, True, False]) if closed_bias else st.booleans()):
             out.append(draw(st.sampled_from("zZ")))
             cur = list(start)
@@ -355,6 +370,13 @@ def _maybe_clip(draw, cx, n, p=2):
     if cx.cfg.clip and cx.clips and draw(st.integers(0, p)) == 0:
         n["a"]["clip-path"] = f"url(#{draw(st.sampled_from(cx.clips))})"
         cx.feat.add("clip-on-" + n["tag"])
+    elif cx.cfg.clip and cx.clips and draw(st.integers(0, 7)) == 0:
+        # clip-path is not inherited: "none" on a descendant leaves the ancestors' clips in force
+        if draw(st.booleans()):
+            n["a"]["clip-path"] = "none"
+        else:
+            n["s"]["clip-path"] = "none"
+        cx.feat.add("clip-none")
 
 
 def _gen_leaf(draw, cx, hook=None):
@@ -419,7 +441,7 @@ def _gen_nested_svg(draw, cx, depth, hook):
         par = draw(st.sampled_from([None, None, "none", "xMinYMin", "xMidYMin", "xMaxYMin", "xMinYMid", "xMidYMid", "xMaxYMid", "xMinYMax", "xMidYMax", "xMaxYMax"]))
         if par is not None:
             mos = draw(st.sampled_from(["", " meet", " slice"]))
-            a["preserveAspectRatio"] = par + (mos if par != "none" else "")
+            a["preserveAspectRatio"] = par + mos  # "none meet" / "none slice" are legal: meetOrSlice is then ignored
     else:
         # without a viewBox the inner user space is the parent's, shifted by x,y
         inner = Box(box.x - (x or 0) * 0, box.y, w if w is not None else box.w, h if h is not None else box.h)
@@ -455,7 +477,7 @@ def _gen_group(draw, cx, depth, hook):
     _maybe_display(draw, cx, g)
     _maybe_clip(draw, cx, g, p=3)
     if cx.cfg.opacity and draw(st.integers(0, 1)) == 0:
-        v = draw(st.sampled_from(["0.5", "0.25", "0.8", "1", "0", ".6", "0.5", "1.5", "-0.25", "2"]))
+        v = draw(st.sampled_from(["0.5", "0.25", "0.8", "1", "0", ".6", "0.5", "1.5", "-0.25", "2"] + (["0.02", "0.03", "0.02"] if cx.cfg.tiny_opacity else [])))
         if draw(st.booleans()):
             g["a"]["opacity"] = v
         else:
@@ -673,8 +695,74 @@ def document_ast(draw, cfg: Cfg, hook=None, root_hook=None):
         root["c"] = ([defs] + body) if defs_pos == "first" else (body + [defs])
     else:
         root["c"] = body
+    if cfg.twins and draw(st.integers(0, 3)) == 0:
+        _add_twin(draw, cx, body)
     _strip(root)
     return root, sorted(cx.feat)
+
+
+_SHAPE_TAGS = ("rect", "circle", "ellipse", "line", "polyline", "polygon", "path")
+
+
+def _set_own(n, prop, value):
+    n["s"].pop(prop, None)
+    n["a"][prop] = value
+
+
+def _add_twin(draw, cx, body):
+    """Copies one rendered leaf: textually identical geometry (and stroke parameters), one paint property
+    altered, shifted by a translate in front of its own transform.  Two shapes that differ in exactly one
+    property are what per-shape memoisation with an incomplete key, or state carried from one shape to
+    the next, gets wrong."""
+    cfg = cx.cfg
+    sites = []
+
+    def walk(kids):
+        for i, k in enumerate(kids):
+            if k["tag"] in _SHAPE_TAGS and "id" not in k["a"]:
+                sites.append((kids, i))
+            elif k["tag"] in ("g", "svg"):
+                walk(k["c"])
+
+    walk(body)
+    if not sites:
+        return
+    kids, i = sites[draw(st.integers(0, len(sites) - 1))]
+    twin = copy.deepcopy(kids[i])
+    kinds = ["recolour", "hidden-before", "hidden-before"]
+    if cfg.stroke:
+        kinds += ["dashoffset", "dashoffset", "linecap", "stroke-width"]
+    kind = draw(st.sampled_from(kinds))
+    before = False
+    if kind == "recolour":
+        _set_own(twin, "fill", draw(st.sampled_from(PALETTE)))
+    elif kind == "hidden-before":
+        before = True
+        how = draw(st.sampled_from(["fill-none", "fill-opacity-0"] + (["display-none"] if cfg.display else []) + (["opacity-0"] if cfg.opacity else [])))
+        if how == "fill-none":
+            _set_own(twin, "fill", "none")
+        elif how == "fill-opacity-0":
+            _set_own(twin, "fill-opacity", "0")
+        elif how == "display-none":
+            _set_own(twin, "display", "none")
+        else:
+            _set_own(twin, "opacity", "0")
+        if cfg.stroke or cfg.cascade:
+            _set_own(twin, "stroke", "none")
+        kind += ":" + how
+    elif kind == "dashoffset":
+        _set_own(twin, "stroke-dashoffset", fmt(round(draw(st.sampled_from([-0.2, 0.05, 0.1, 0.33, 1.3])) * cx.box.ext, 1)))
+    elif kind == "linecap":
+        _set_own(twin, "stroke-linecap", draw(st.sampled_from(["butt", "round", "square"])))
+    else:
+        _set_own(twin, "stroke-width", fmt(max(2.0, round(draw(st.sampled_from([0.04, 0.1, 0.16])) * cx.box.ext, 2))))
+    if cfg.transforms and draw(st.integers(0, 3)):
+        dx = round(draw(st.sampled_from([-0.3, -0.15, 0.12, 0.25, 0.4])) * cx.box.w, 1)
+        dy = round(draw(st.sampled_from([-0.3, -0.15, 0.12, 0.25, 0.4])) * cx.box.h, 1)
+        twin["a"]["transform"] = (f"translate({fmt(dx)} {fmt(dy)}) " + twin["a"].get("transform", "")).strip()
+        cx.feat.add("transform")
+    kids.insert(i if before or draw(st.booleans()) else i + 1, twin)
+    cx.feat.add("twin:" + kind)
 
 
 def _strip(n):
@@ -685,6 +773,7 @@ def _strip(n):
 
 # ------------------------------------------------------------------ cascade hook (C05)
 
+_TINY = ["0.02", "0.03", "0.02"]
 _OPAC = ["0.5", "0.25", ".8", "1", "0", "0.6", "1.5", "-0.25"]  # values outside [0,1] are clamped by SVG
 
 
@@ -715,9 +804,9 @@ def cascade_hook(draw, cx, n):
             if n["a"].get("fill") == "black" or n["s"].get("fill") == "black":
                 cx.feat.add("explicit-default-fill")
         elif p == "fill-opacity":
-            f = _put(draw, n, "fill-opacity", _OPAC)
+            f = _put(draw, n, "fill-opacity", _OPAC + (_TINY if cx.cfg.tiny_opacity else []))
         elif p == "opacity":
-            f = _put(draw, n, "opacity", _OPAC)
+            f = _put(draw, n, "opacity", _OPAC + (_TINY if cx.cfg.tiny_opacity else []))
             cx.feat.add(f"{'group' if tag == 'g' else tag if tag == 'use' else 'shape'}-opacity")
         elif p == "fill-rule":
             f = _put(draw, n, "fill-rule", ["evenodd", "nonzero"])
@@ -753,6 +842,21 @@ def root_cascade_hook(draw, cx, root, allow_opacity=False):
 # ------------------------------------------------------------------ stroke hook (C04)
 
 
+def _spell(draw, text):
+    """The same decimal number in another legal spelling (exponent forms, explicit plus sign)."""
+    k = draw(st.integers(0, 11))
+    if k > 3 or text in ("0",):
+        return text
+    d = Decimal(text)
+    if k == 0:
+        return f"{d.scaleb(-1):f}e1"
+    if k == 1:
+        return f"{d.scaleb(1):f}E-1"
+    if k == 2:
+        return f"{d.scaleb(-2):f}e+2"
+    return "+" + text if d > 0 else text
+
+
 def _stroke_props(draw, cx, allow_dash=True):
     ext = cx.box.ext
     w = draw(st.sampled_from([0.03, 0.05, 0.08, 0.12, 0.2])) * ext
@@ -761,6 +865,9 @@ def _stroke_props(draw, cx, allow_dash=True):
         w = 0  # a zero-width stroke paints nothing
         cx.feat.add("stroke-width-0")
     props = {"stroke": draw(st.sampled_from(PALETTE[8:])), "stroke-width": fmt(w)}
+    if cx.cfg.gradient_stroke and cx.grads and draw(st.integers(0, 2)) == 0:
+        props["stroke"] = f"url(#{draw(st.sampled_from(cx.grads))})"
+        cx.feat.add("gradient-stroke")
     if draw(st.booleans()):
         props["stroke-linecap"] = draw(st.sampled_from(["butt", "round", "square"]))
     if draw(st.booleans()):
@@ -774,9 +881,12 @@ def _stroke_props(draw, cx, allow_dash=True):
             # dotted-line idiom: zero-length dashes (dots appear only with round/square caps) and wide gaps
             vals = ["0", fmt(round(draw(st.sampled_from([0.3, 0.45])) * ext, 1))] + (vals[:2] if draw(st.booleans()) and len(vals) >= 2 else [])
             cx.feat.add("dash-with-zero-entry")
-        props["stroke-dasharray"] = draw(st.sampled_from([" ", ",", ", "])).join(vals)
+        spelled = [_spell(draw, v) for v in vals]
+        if spelled != vals:
+            cx.feat.add("dash-number-spelling")
+        props["stroke-dasharray"] = draw(st.sampled_from([" ", ",", ", "])).join(spelled)
         if draw(st.booleans()):
-            props["stroke-dashoffset"] = fmt(round(draw(st.sampled_from([-0.3, -0.05, 0.07, 0.2, 0.9, 2.5])) * ext, 1))
+            props["stroke-dashoffset"] = _spell(draw, fmt(round(draw(st.sampled_from([-0.3, -0.05, 0.07, 0.2, 0.9, 2.5])) * ext, 1)))
     elif allow_dash and draw(st.integers(0, 5)) == 0:
         props["stroke-dasharray"] = "none"  # explicit reset of an inherited dash pattern
         cx.feat.add("dasharray-none")
